@@ -15,7 +15,7 @@ THEOREMS = ["rlencodeChunked_eq", "runStartsFrom_append", "fillIdx_spec", "index
             "writePixels_concat", "create_valid", "create_zero_chunks", "countIndex_eq_csrIndex", "merge_valid", "unordered_valid", "fillIdx_segs", "indexFromRle_of_segs", "indexFromRle_of_runs"]
 LEVELS = {"history": "top", "rlencode": "unit", "index": "unit", "bigindex": "top", "cli_load": "top"}
 DESCRIBE = {
-    "history": "a seeded history of producing operations (create ordered/unordered, merge, coarsen, zoomify, scool, append to one file); "
+    "history": "a seeded history of producing operations (create ordered/unordered, merge, coarsen, zoomify, legacy quad-tree zoomify, scool, append to one file); "
                "EVERY collection of EVERY file written is dumped raw with h5py and judged by Lean `schemaViolations` "
                "(= conclusion of theorem create_valid)",
     "rlencode": "cooler.util.rlencode(array, chunksize=c): contract `runsSpell` (non-empty constant runs from 0 spelling out the array; theorem indexFromRle_of_runs: the index builder is correct for ANY such run list) evaluated by Lean on "
@@ -135,7 +135,7 @@ def _history(case):
         for step in range(case["steps"]):
             opts = ["create", "create_chunks", "create_unsorted_chunks", "unordered", "empty", "bigcounts", "empty_extra", "unsigned"]
             if base:
-                opts += ["merge", "merge", "coarsen", "coarsen", "zoomify", "append"]
+                opts += ["merge", "merge", "coarsen", "coarsen", "zoomify", "append", "legacy_zoomify"]
             if step == 0:
                 opts = ["create", "create_chunks", "create_unsorted_chunks", "unordered"]
             op = case["ops"][step] if "ops" in case else rng.choice(opts)
@@ -279,6 +279,27 @@ def _history(case):
                     r = _check_file(q, "merge of coarsened", trail)
                     if r:
                         return r
+                continue
+            elif op == "legacy_zoomify":
+                # the legacy quad-tree producer (`cooler zoomify --legacy`): levels ::n ... ::0 by repeated factor-2 coarsening;
+                # the tile dimension (module constant, 256) is lowered so that small bases get several levels
+                import cooler._reduce as red
+                src = rng.choice(base)
+                if cooler.Cooler(src).binsize is None:
+                    continue                       # legacy layout needs a fixed bin size
+                p = newfile(".mcool")
+                cs = rng.randint(1, 12)
+                tile = rng.randint(1, 3)
+                trail.append(["legacy_zoomify", cs, f"tile={tile}"])
+                old = red.HIGLASS_TILE_DIM
+                red.HIGLASS_TILE_DIM = tile
+                try:
+                    impl(red.legacy_zoomify, src, p, 1, cs)
+                finally:
+                    red.HIGLASS_TILE_DIM = old
+                r = _check_file(p, f"legacy_zoomify chunksize={cs} tile={tile}", trail)
+                if r:
+                    return r
                 continue
             elif op == "zoomify":
                 src = rng.choice(base)
@@ -457,6 +478,9 @@ def cases(tier, rng):
     # third-wave seeded changes: empty stream with an extra value column; count given in an unsigned dtype
     yield "history", {"seed": 26, "n": 6, "symm": True, "var": False, "layout": [4, 2], "steps": 3, "scool": False,
                       "ops": ["create", "empty_extra", "unsigned"]}
+    yield "history", {"seed": 27, "n": 7, "symm": True, "var": False, "layout": [5, 2], "steps": 2, "scool": False, "ops": ["create", "legacy_zoomify"]}
+    yield "history", {"seed": 28, "n": 6, "symm": False, "var": False, "layout": [6], "steps": 3, "scool": False,
+                      "ops": ["unordered", "merge", "legacy_zoomify"]}
     yield "rlencode", {"xs": [0, 0, 1, 1, 1, 3], "chunks": [1, 2, 3, 4, 5, 6, 7]}
     yield "index", {"xs": [2, 2, 5], "n": 7}
     yield "index", {"xs": [], "n": 3}
